@@ -1,9 +1,13 @@
 SPECIFICATION Spec
 CONSTANTS
   Alphabet <- FullAlphabet
+  Chunks <- CharChunks
+  MaxChunks = 99
   Core <- CoreAlphabet
   MaxLen = 3
   CoreLen = 3
+  WordLen = 3
+  PairLen = 3
   QuoteEndsAtBackslashQuote = TRUE
-INVARIANTS TypeOK Unambiguous FilterAgree ProjAgree ErrorOffsetInText MeasureDecreases UnquoteInverse QuotedWordLexes QuotedTermDenotes BareWordDenotes MalformedRejected UnbalancedRejected
+INVARIANTS TypeOK TextProps UnquoteInverse QuotedWordLexes QuotedTermDenotes BareWordDenotes MalformedRejected UnbalancedRejected
 CHECK_DEADLOCK FALSE
